@@ -253,8 +253,8 @@ CLAIMED["C19"] = _symx(
     "values); counterexamples replayed on real numpy/h5py",
     "bounded model checking, partial and weak: on one file (group, curve with float and referenced data, property group, metadata; "
     "point set with data; symbolic vertices and float values) every single deletion of an attribute (project group, entities, "
-    "types), of the Root / Type / PropertyGroups / Color map / Value map links, of an empty child container or of a flat container "
-    "is explored (128 items): a file without an optional item opens, and every entity the item does not describe comes back with "
+    "types), of the Root / Type / PropertyGroups / Color map / Value map links, of an attribute of a property-group block, of an empty child "
+    "container or of a flat container is explored (168 items; the file also holds a drillhole group and is re-opened read-only): a file without an optional item opens, and every entity the item does not describe comes back with "
     "the same class, parent, name, flags, geometry, values and property groups; for other items the reader may raise. The choice "
     "of the fault is the only thing the solver decides besides the term-wise comparison.",
     _SYMX_NOTE + "; the optional / mandatory classification of items (harness/c19.py OPTIONAL_ATTRS) is the harness author's reading "
@@ -265,12 +265,13 @@ CLAIMED["C19"]["design_ref"] = "DESIGN.md section 12.15"
 CLAIMED["C10"] = _symx(
     "C10",
     "symx path exploration (z3 feasibility only): the sequence of API calls on a workspace opened with mode 'r' is a symbolic choice "
-    "from an alphabet of 25 (one explored path per sequence); the bytes and modification time of the file, the handle's mode and "
+    "from an alphabet of 29 (one explored path per sequence); the bytes and modification time of the file, the handle's mode and "
     "the raise / no-raise verdict of each call are observed on the real code; counterexamples replayed on the real code",
-    "bounded model checking, partial and weak (nothing value-level): for all sequences of 2 (thorough: 3) calls from {20 mutating calls: "
+    "bounded model checking, partial and weak (nothing value-level): for all sequences of 2 (thorough: 3) calls from {23 mutating calls: "
     "setters, rename, move, copies inside the workspace, removals, add_data, property-group edits, metadata, type and value-map "
-    "changes, creations; 5 reading calls: read every attribute, copy to another workspace, copy to a monitoring directory, load a "
-    "ui.json naming the file, re-open in mode 'r'} on a file on disk: the bytes and the modification time of the file are unchanged, "
+    "changes, creations, edits of a hole in a drillhole group; 6 reading calls: read every attribute, copy to another workspace, "
+    "copy to a monitoring directory, load a ui.json naming the (unheld) file, re-open in mode 'r', close then open()} on a file on "
+    "disk (also one without the Root link): the bytes and the modification time of the file are unchanged, "
     "the handle stays in mode 'r', a mutating call issued from a clean state fails with an error, the reading calls work.",
     "trusted: h5py / the OS for honouring mode 'r'; the symx explorer for enumerating the sequences. Only the choice of the sequence is "
     "symbolic",
@@ -282,7 +283,8 @@ CLAIMED["C11"] = _symx(
     "(normal exit, exception after k operations, explicit close, re-open in mode 'r') is a symbolic choice; z3 validity of 'tree read "
     "by a fresh Workspace == live tree when the last operation completed', term by term; handle state and closed-file errors "
     "observed on the real code; counterexamples replayed on real numpy/h5py",
-    "bounded model checking, partial: first operation (9) x second operation (9) x ending (6) on a stored tree with symbolic vertices "
+    "bounded model checking, partial: first operation (12, incl. deferred creation and drillhole-group edits that are flushed at the close) x second operation "
+    "(12) x ending (9, incl. the fetch_active_workspace helper) on a stored tree with symbolic vertices "
     "and values: after the block the workspace reports its file closed and keeps no open handle; adding data / renaming through a "
     "handle obtained before the close and fetching children raise the dedicated closed-file error; the file opens again and holds "
     "exactly the entities, geometry, values and flags the live workspace showed when the last operation returned; re-opening the "
@@ -298,8 +300,8 @@ CLAIMED["C20"] = _symx(
     "partner resolution, identifiers in the metadata, shared parameters and copies are observed; counterexamples replayed on the real code",
     "bounded model checking, partial and weak (values are concrete: shared parameters are JSON text in the metadata): for 8 class pairs "
     "(airborne / moving-loop / large-loop x TEM / FEM, tipper, direct current) x linking side x edit {none, channels, unit, input "
-    "type, channels through both sides} x edited side x copy {none, plain, other workspace, masked} x copied side x re-open (2560 "
-    "paths): both identifiers are recorded on both entities and each resolves its partner (live and after re-opening); a valid "
+    "type, channels through both sides} x edited side x copy {none, plain, other workspace, masked} x copied side x re-open x partner looked at before the edit or not x edit in a "
+    "later session (10240 paths), plus relinking (partner linked elsewhere, link restored from either side): both identifiers are recorded on both entities and each resolves its partner (live and after re-opening); a valid "
     "edit through either side is accepted, visible on both and stored; a copy of one side also copies the partner, the two copies "
     "point at each other and not at the originals, and the originals stay linked.",
     "trusted: the symx explorer for enumerating the combinations; everything else is the real library on real h5py. Only the choices are "
